@@ -1031,7 +1031,8 @@ impl<'a> Iterator for Curve2Iterator<'a> {
 }
 
 fn resample_by_max_spacing(curve: &Curve2, max_spacing: f64) -> Result<Curve2> {
-    let n = (curve.length() / max_spacing).ceil() as usize;
+    // n points make n - 1 intervals, and there are always at least the two end points
+    let n = ((curve.length() / max_spacing).ceil() as usize + 1).max(2);
     resample_by_count(curve, n)
 }
 
